@@ -124,7 +124,12 @@ def monitor(cb, impl):
                     any(not close(e, x, 1e-9) for e, x in zip(exp, r1)):
                 hits.append(("infoset %s of player %d: truncate(%r) gave %r, expected %r (before: %r)"
                              % (info, pl + 1, h, r1, exp, r0), "wrong-support"))
-            if any(not close(x, y, 1e-9) for x, y in zip(r1, r2)):
+            # binary64 boundary: renormalising can move an entry that was just above the threshold onto it
+            # (the row sum is 1 only up to an ulp), and the second truncation then drops it.  Over the reals
+            # truncation is idempotent (theorem C18_idempotent); an entry within a few ulps of the threshold
+            # after the first truncation is the rounding case and is not judged (binary64-range class, DESIGN 9)
+            on_boundary = any(x != 0.0 and abs(x - h) <= 8 * 2.0 ** -52 * max(abs(h), abs(x)) for x in r1)
+            if any(not close(x, y, 1e-9) for x, y in zip(r1, r2)) and not on_boundary:
                 hits.append(("infoset %s of player %d: truncating twice differs from once: %r vs %r (thresh %r)"
                              % (info, pl + 1, r2, r1, h), "not-idempotent"))
     return hits
